@@ -70,7 +70,7 @@ def gen_plan(run_seed, tier, index):
     n = r.randint(3, 10)
     ops = opgen.gen_program(stream(run_seed, 'ops'), model,
                             dn or 'root/cimv2', n, valid_only=True,
-                            with_export=True)
+                            with_export=True, client_invalid=True)
     fr = stream(run_seed, 'faults')
     faults = []
     for _ in range(fr.choice([0, 1, 1, 2, 3])):
@@ -102,10 +102,14 @@ def gen_plan(run_seed, tier, index):
         obs['logrecorder_disabled'] = True
     obs['stats'] = o.random() < 0.5
     obs['debug'] = o.random() < 0.4
+    if o.random() < 0.15:
+        # the caller continues on a copy of the connection
+        ops.insert(o.randrange(len(ops) + 1), {'op': '$copy_conn'})
     return {'check': ID, 'model_seed': mseed, 'default_ns': dn, 'ops': ops,
             'faults': faults, 'ids_seed': fr.getrandbits(32),
             'timeout': r.choice([None, 30]),
             'password': 'S3cr3t-%08x' % o.getrandbits(32),
+            'creds_form': o.choice(['tuple', 'tuple', 'list']),
             'observers': obs}
 
 
@@ -145,6 +149,7 @@ def run_world(plan, observed):
     real_stderr = sys.stderr
     try:
         conn_s = mg.fresh_conn(model)
+        mg.enable_query(conn_s)     # stub query engine (see modelgen)
         opgen.register_echo(conn_s, model)
         server = wbemserver.SimWBEMServer(conn_s)
         peer = c02.Peer(server, plan)
@@ -152,8 +157,10 @@ def run_world(plan, observed):
         try:
             if obs.get('stats'):
                 kw['stats_enabled'] = True
-            conn = pywbem.WBEMConnection(URL, ('user', plan['password']),
-                                         **kw)
+            creds = ('user', plan['password'])
+            if plan.get('creds_form') == 'list':
+                creds = list(creds)
+            conn = pywbem.WBEMConnection(URL, creds, **kw)
             yaml_fp = None
             try:
                 for key in ('logger', 'logger2'):
@@ -176,8 +183,7 @@ def run_world(plan, observed):
                         sys.stderr = real_stderr
                 if obs.get('logger', {}).get('conn') is True:
                     # 'True' activates connections created afterwards
-                    conn = pywbem.WBEMConnection(
-                        URL, ('user', plan['password']), **kw)
+                    conn = pywbem.WBEMConnection(URL, creds, **kw)
                 if 'testrecorder' in obs:
                     yaml_fp = io.StringIO()
                     rec = pywbem.TestClientRecorder(yaml_fp)
@@ -199,7 +205,14 @@ def run_world(plan, observed):
                 nex0 = len(net.exchanges)
                 sys.stderr = stderr_cap
                 try:
-                    res = opgen.call(conn, op, results)
+                    if op['op'] == '$copy_conn':
+                        try:
+                            conn = conn.copy()
+                            res = ('ok', None)
+                        except Exception as e:  # pylint: disable=broad-except
+                            res = ('exc', e)
+                    else:
+                        res = opgen.call(conn, op, results)
                 finally:
                     sys.stderr = real_stderr
                 results.append(res)
@@ -358,7 +371,8 @@ def execute(plan):
                           c02._short(rbody, 200)))
     # statistics
     if obsd['stats'] is not None and not V and \
-            not any(o['op'].startswith('Iter') for o in plan['ops']):
+            not any(o['op'].startswith('Iter') or o['op'] == '$copy_conn'
+                    for o in plan['ops']):
         exp = {}
         for i, o in enumerate(plan['ops'][:n]):
             cnt = exp.setdefault(o['op'], [0, 0])
